@@ -32,7 +32,7 @@ class DocGen:
             qn = getattr(self, 'quoted_names', 0)
             if qn and R.random() < qn:          # names that must be written quoted (space, dot, leading digit, keyword)
                 nm = '"%s"' % R.choice(['sp ace', 'do.t', '1st', 'with', 'a-b c'])
-                while nm in names: nm = nm[:-1] + '_"'
+                while nm in names: nm = nm[:-1] + ' 2"'          # stays a name that needs its quotes (a quoted spelling of a plain identifier is finding F-13's domain)
                 names.add(nm)
             if R.random() < 0.15 and top: nm = nm + '.' + self.ident()
             l = ' ' * ind + nm + ' = ' + self.value(ind, depth) + ';'
